@@ -20,7 +20,8 @@
            not re-scanned  -> [KnownEsc] *)
 From Coq Require Import List NArith Bool.
 From XmlRs Require Import Base.CPred Spec.AttrNorm Model.AttrModel
-  Proofs.AttrTokenProofs Proofs.AttrNormProofs Proofs.AttrSetProofs Proofs.AttrWfProofs Proofs.AttrExamples.
+  Proofs.AttrTokenProofs Proofs.AttrNormProofs Proofs.AttrSetProofs Proofs.AttrWfProofs Proofs.AttrExamples
+  Proofs.AttrNsDefaults.
 Open Scope N_scope.
 
 (** *** normalized value: the model computes the XML 1.0 normalized value, for every entity table without
@@ -60,13 +61,21 @@ Proof.
 Qed.
 
 (** *** attribute set.  Full-strength statement (REFUTED by the model, finding D36):
-      forall d el written, doc_wf d written -> no_ns_defs d el ->
+      forall d el written, doc_wf d written ->
         model_attrs d el written = map_ares (map of_item) (spec_attrs d el written)
-    What holds: the same outside [Known36]. *)
+    What holds: the same outside [Known36].  The attribute-list declarations MAY define namespace declarations
+    ([xmlns], [xmlns:p]; the former hypothesis [no_ns_defs] is gone with /repo commit bf629dc, D67): a namespace
+    declaration, written or supplied by a default, is no member of [attributes] (XML Infoset 2.2) on either side
+    ([namespace_declarations_excluded]; satisfiable: [nsdef_attrs] in Proofs/AttrNsDefaults.v). *)
 Theorem attribute_set_refines : forall d el written,
-  doc_wf d written -> no_ns_defs d el -> Known36 d el written = false ->
+  doc_wf d written -> Known36 d el written = false ->
   model_attrs d el written = map_ares (map of_item) (spec_attrs d el written).
 Proof. exact attribute_set_refines_proof. Qed.
+
+Theorem namespace_declarations_excluded : forall d el written,
+  (forall l, spec_attrs d el written = Ok l -> Forall (fun i => is_nsdecl (ai_name i) = false) l) /\
+  (forall l, model_attrs d el written = Ok l -> Forall (fun a => is_nsdecl (ma_name a) = false) l).
+Proof. exact no_nsdecl_among_attributes. Qed.
 
 Theorem attribute_set_refuted :
   exists d el written, doc_wf d written /\ no_ns_defs d el /\ Known36 d el written = true /\
@@ -81,7 +90,7 @@ Theorem build_checks_refine : forall T lit, simple_table T -> m_refs_found T lit
 Proof. exact literal_checks_agree. Qed.
 
 Theorem attribute_set_refines_all : forall d el written,
-  simple_table (entities_of d) -> predefined_free (entities_of d) -> no_ns_defs d el -> Known36 d el written = false ->
+  simple_table (entities_of d) -> predefined_free (entities_of d) -> Known36 d el written = false ->
   model_attrs d el written = map_ares (map of_item) (spec_attrs d el written).
 Proof. exact attribute_set_refines_all_proof. Qed.
 
@@ -111,6 +120,7 @@ Print Assumptions fuel_irrelevant.
 Print Assumptions tokenization_refines.
 Print Assumptions tokenized_sound.
 Print Assumptions attribute_set_refines.
+Print Assumptions namespace_declarations_excluded.
 Print Assumptions attribute_set_refuted.
 Print Assumptions build_checks_refine.
 Print Assumptions attribute_set_refines_all.
